@@ -495,6 +495,14 @@ class JSTypedArray(JSObject):
                 # Write to buffer
                 self._write_to_buffer(index, coerced)
 
+    def _ensure_buffer(self) -> "JSArrayBuffer":
+        """Return the backing ArrayBuffer, creating it from the elements on first use."""
+        if self._buffer is None:
+            self._buffer = JSArrayBuffer(len(self._data) * self._element_size)
+            for index, value in enumerate(self._data):
+                self._write_to_buffer(index, value)
+        return self._buffer
+
     def _read_from_buffer(self, index: int):
         """Read a value from the underlying buffer."""
         import struct
